@@ -165,6 +165,10 @@ def run_case(case):
                 size = call['size'] if 'size' in call else max(0, call['k'] * case['b'] + call['delta'])
                 if size > 400000:
                     size = size % 400000
+                if env.tier() == 'quick' and size // max(1, case['b']) > 20000:
+                    # quick tier: at most ~20000 transmission messages per call (a 300 KB argument in 1-2 byte
+                    # pieces costs a minute); the thorough tier keeps the full size
+                    size = case['b'] * 20000 + size % 7
                 args = [(bytes(range(256)) * (size // 256 + 1))[:size]]
                 kwargs = {}
                 classes.add('sized' if 'k' in call else 'random-size')
